@@ -492,7 +492,7 @@ def h_exit_class_composed(eng):
               derivatives=[getattr(d, "label", "?") for d in got_ders])
 
 
-def h_get_derivative(eng):
+def h_get_derivative(eng, size=(3, 1), mshape=((3,),)):
     """Generator.get_derivative, symbol cases: the derivative of a variable is ONE symbol per variable name, named der(<name>), of the
     variable's size and Modelica shape, kept in self.derivative and registered among the class's nodes; the derivative of an indexed
     variable x[a:b:s] is the same slice of der(x); a constant has derivative 0.  (This is what makes der_states line up with states.)"""
@@ -522,6 +522,12 @@ def h_get_derivative(eng):
                 return stub(lambda eng: VDict([("slice", VDict(list(self.info_.items())))]))
             if name == "size":
                 return stub(lambda eng: self.size_)
+            if name in ("nnz", "numel"):      # dense symbols
+                return stub(lambda eng: self.size_[0] * self.size_[1])
+            if name in ("size1", "size2"):
+                return stub(lambda eng: self.size_[int(name[-1]) - 1])
+            if name == "shape":
+                return self.size_
             if name in self.attrs:
                 return self.attrs[name]
             return MXSym.sym_getattr(self, eng, name)
@@ -538,7 +544,12 @@ def h_get_derivative(eng):
     mx_cls.constructor = lambda eng, c, a, k: a[0]
 
     def new_mx(eng, args, kw):
-        d = DS(args[0], size=args[1] if len(args) > 1 else (1, 1))
+        # _new_mx(name, *shape): no shape = scalar, one number n = an n x 1 column, a pair or two numbers = rows x columns
+        shp = tuple(args[1:])
+        if len(shp) == 1 and isinstance(shp[0], (tuple, list)):
+            shp = tuple(shp[0])
+        shp = shp + (1,) * (2 - len(shp)) if len(shp) < 2 else shp
+        d = DS(args[0], size=shp)
         made.append(d)
         return d
     eng.call_contracts["_new_mx"] = new_mx
@@ -547,13 +558,13 @@ def h_get_derivative(eng):
     eng.input("argument", case)
     eng.input("derivative_symbol_exists_already", cached_before)
     klass = VObj(VClass("Class"), {"name": "M"})
-    x = DS("x")
-    x.attrs["_modelica_shape"] = ((3,),)
+    x = DS("x", size=size)
+    x.attrs["_modelica_shape"] = mshape
     nodes = VDict([(klass, VDict([("x", x)]))])
     derivative = VDict()
     pre = None
     if cached_before:
-        pre = DS("der(x)")
+        pre = DS("der(x)", size=size)
         derivative.keys.append("x")
         derivative.vals.append(pre)
     g = new_generator(eng, gen_mod, {"derivative": derivative, "nodes": nodes, "entered_classes": VList([klass]), "for_loops": VList([]), "src": VDict()})
@@ -569,7 +580,8 @@ def h_get_derivative(eng):
     eng.prove("der.one_derivative_symbol_per_variable", z3.BoolVal(dsym is not None and derivative.keys == ["x"] and len(made) == (0 if cached_before else 1) and
                                                                 (dsym is pre if cached_before else dsym is made[0])))
     if not cached_before and dsym is not None:
-        eng.prove("der.new_symbol_is_named_sized_and_shaped_after_its_variable", z3.BoolVal(dsym.label == "der(x)" and dsym.size_ == (3, 1) and dsym.attrs.get("_modelica_shape") == ((3,),)))
+        eng.prove("der.new_symbol_is_named_sized_and_shaped_after_its_variable", z3.BoolVal(dsym.label == "der(x)" and tuple(dsym.size_) == tuple(size) and dsym.attrs.get("_modelica_shape") == mshape),
+                  got=[dsym.label, list(dsym.size_)])
         kn = nodes.vals[0]
         eng.prove("der.new_symbol_registered_in_the_class", z3.BoolVal("der(x)" in kn.keys and kn.vals[kn.keys.index("der(x)")] is dsym))
     if case == "symbol":
